@@ -75,7 +75,7 @@ func (w *escapeeWriter) Write(b []byte) (int, error) {
 type Runtime struct {
 	*escapeeWriter
 	*scope
-	content func(*Runtime, Expression)
+	content func(*Runtime, Expression) reflect.Value
 
 	context reflect.Value
 }
@@ -338,7 +338,7 @@ func (st *Runtime) executeLetList(set *SetNode) {
 	}
 }
 
-func (st *Runtime) executeYieldBlock(block *BlockNode, blockParam, yieldParam *BlockParameterList, expression Expression, content *ListNode) {
+func (st *Runtime) executeYieldBlock(block *BlockNode, blockParam, yieldParam *BlockParameterList, expression Expression, content *ListNode) (returnValue reflect.Value) {
 
 	needNewScope := len(blockParam.List) > 0 || len(yieldParam.List) > 0
 	if needNewScope {
@@ -367,7 +367,7 @@ func (st *Runtime) executeYieldBlock(block *BlockNode, blockParam, yieldParam *B
 	mycontent := st.content
 	if content != nil {
 		myscope := st.scope
-		st.content = func(st *Runtime, expression Expression) {
+		st.content = func(st *Runtime, expression Expression) (returnValue reflect.Value) {
 			outscope := st.scope
 			outcontent := st.content
 			// restore them also when the content panics: the enclosing lists release
@@ -383,27 +383,29 @@ func (st *Runtime) executeYieldBlock(block *BlockNode, blockParam, yieldParam *B
 			if expression != nil {
 				context := st.context
 				st.context = st.evalPrimaryExpressionGroup(expression)
-				st.executeList(content)
+				returnValue = st.executeList(content)
 				st.context = context
 			} else {
-				st.executeList(content)
+				returnValue = st.executeList(content)
 			}
+			return
 		}
 	}
 
 	if expression != nil {
 		context := st.context
 		st.context = st.evalPrimaryExpressionGroup(expression)
-		st.executeList(block.List)
+		returnValue = st.executeList(block.List)
 		st.context = context
 	} else {
-		st.executeList(block.List)
+		returnValue = st.executeList(block.List)
 	}
 
 	st.content = mycontent
 	if needNewScope {
 		st.releaseScope()
 	}
+	return
 }
 
 func (st *Runtime) executeList(list *ListNode) (returnValue reflect.Value) {
@@ -555,7 +557,9 @@ func (st *Runtime) executeList(list *ListNode) (returnValue reflect.Value) {
 			node := node.(*YieldNode)
 			if node.IsContent {
 				if st.content != nil {
-					st.content(st, node.Expression)
+					if v := st.content(st, node.Expression); v.IsValid() {
+						returnValue = v
+					}
 				}
 			} else {
 				block, has := st.getBlock(node.Name)
@@ -567,7 +571,9 @@ func (st *Runtime) executeList(list *ListNode) (returnValue reflect.Value) {
 						node.errorf("missing value for argument '%s' in yield of block %q", p.Identifier, node.Name)
 					}
 				}
-				st.executeYieldBlock(block, block.Parameters, node.Parameters, node.Expression, node.Content)
+				if v := st.executeYieldBlock(block, block.Parameters, node.Parameters, node.Expression, node.Content); v.IsValid() {
+					returnValue = v
+				}
 			}
 		case NodeBlock:
 			node := node.(*BlockNode)
@@ -575,7 +581,9 @@ func (st *Runtime) executeList(list *ListNode) (returnValue reflect.Value) {
 			if has == false {
 				block = node
 			}
-			st.executeYieldBlock(block, block.Parameters, block.Parameters, block.Expression, block.Content)
+			if v := st.executeYieldBlock(block, block.Parameters, block.Parameters, block.Expression, block.Content); v.IsValid() {
+				returnValue = v
+			}
 		case NodeInclude:
 			node := node.(*IncludeNode)
 			if v := st.executeInclude(node); v.IsValid() {
